@@ -388,8 +388,12 @@ func Clone(n ast.Vertex) ast.Vertex {
 	return dstp.Interface().(ast.Vertex)
 }
 
-// CloneToken deep-copies a token.
-func CloneToken(t *token.Token) *token.Token {
+// CloneToken deep-copies a token. Free-floating tokens are copied to a fixed
+// depth (trivia of trivia of trivia is dropped): the library never nests
+// trivia, and a token graph damaged into a cycle must not hang the harness.
+func CloneToken(t *token.Token) *token.Token { return cloneToken(t, 0) }
+
+func cloneToken(t *token.Token, depth int) *token.Token {
 	if t == nil {
 		return nil
 	}
@@ -401,10 +405,10 @@ func CloneToken(t *token.Token) *token.Token {
 		p := *t.Position
 		c.Position = &p
 	}
-	if t.FreeFloating != nil {
+	if t.FreeFloating != nil && depth < 3 {
 		c.FreeFloating = make([]*token.Token, len(t.FreeFloating))
 		for i, f := range t.FreeFloating {
-			c.FreeFloating[i] = CloneToken(f)
+			c.FreeFloating[i] = cloneToken(f, depth+1)
 		}
 	}
 	return c
